@@ -110,3 +110,66 @@ def pair(namelen: int, k: int, gen: bool, star: bool) -> bool:
     except Exception:  # noqa: BLE001
         ok = False
     return fin(M, ok, namelen=namelen, k=k, gen=gen, star=star)
+
+
+BOUNDS = [127, 128, 129, 16383, 16384, 16385]
+
+
+def base_frame_len(integ, phys, delim):
+    """length of the first (only) frame when the stream name is empty"""
+    opts = pj.make_options(phys, delimited=True, stream_name="", generalized=integ == "generic", rdf_star=integ == "generic")
+    data = pj.gen_serialize(ITEMS[phys][:1], phys, opts, entry="flat_frames") if integ == "generic" else pj.rdf_serialize(ITEMS[phys][:1], phys, opts, entry="graph_serialize")
+    from vpkg.ref import wire
+    ln, p2 = wire.dec_varint(bytes(data), 0)
+    return ln
+
+
+def name_len_for(integ, phys, target):
+    """stream-name length that makes the first delimited frame exactly `target` bytes long (None if unreachable)"""
+    from vpkg.ref import wire
+    L = max(target - base_frame_len(integ, phys, True), 1)
+    for _ in range(6):
+        opts = pj.make_options(phys, delimited=True, stream_name="n" * L, generalized=integ == "generic", rdf_star=integ == "generic")
+        data = pj.gen_serialize(ITEMS[phys][:1], phys, opts, entry="flat_frames") if integ == "generic" else pj.rdf_serialize(ITEMS[phys][:1], phys, opts, entry="graph_serialize")
+        ln = wire.dec_varint(bytes(data), 0)[0]
+        if ln == target:
+            return L
+        L = max(L + (target - ln), 1)
+    return None
+
+
+def boundary(b: int, adj: int) -> bool:
+    """
+    pre: 0 <= b < 6 and adj == 0
+    post: _
+    """
+    # the stream name is sized so that the FRAME length is exactly 127, 128, 129, 16383, 16384 or 16385 (varint boundaries)
+    integ, phys = P["integ"], P["phys"]
+    try:
+        target = alpha.pick(b, BOUNDS)
+        with notrace():
+            L = name_len_for(integ, phys, target)
+        if L is None:
+            return False
+        name = "n" * L
+        want = [norm_item(i) for i in ITEMS[phys][:1]]
+        ok = True
+        for delim in (True, False):
+            opts = pj.make_options(phys, delimited=delim, stream_name=name, generalized=integ == "generic", rdf_star=integ == "generic")
+            if integ == "generic":
+                data = pj.gen_serialize(ITEMS[phys][:1], phys, opts, entry="flat_frames")
+            else:
+                data = pj.rdf_serialize(ITEMS[phys][:1], phys, opts, entry="graph_serialize")
+            with notrace():
+                data = bytes(data)
+                ok = ok and framing_is(data, delim)
+                if delim:
+                    from vpkg.ref import wire as _w
+                    ok = ok and _w.dec_varint(data, 0)[0] == target
+                got = pj.gen_parse(data) if integ == "generic" else pj.rdf_parse(data, entry="to_graph", quads=phys != 1)
+                ok = ok and sorted(map(repr, (norm_item(i) for i in got))) == sorted(map(repr, want))
+        if P.get("twin"):
+            ok = False
+    except Exception:  # noqa: BLE001
+        ok = False
+    return fin(M, ok, b=b, adj=adj)
